@@ -228,9 +228,12 @@ def expand_cases(cases, base, prefix):
 # ---------------------------------------------------------------------------------------------
 # executing cases against the real code (supervised)
 
-def exec_cases(cases_path, events_path, profile="dev", mem_kb=4 * 1024 * 1024, timeout_case=20, total_timeout=3600, env=None):
+def exec_cases(cases_path, events_path, profile="dev", mem_kb=4 * 1024 * 1024, timeout_case=20, total_timeout=3600, env=None,
+               max_hangs=12):
     """Runs pv-exec over a case file under an address-space cap and a watchdog. Cases on which the
-    process aborts or hangs are recorded as crash events and execution resumes after them."""
+    process aborts or hangs are recorded as crash events and execution resumes after them. After
+    max_hangs hanging cases the rest of the file is not executed (each hang costs timeout_case seconds and
+    the stage already has that many crash events to report); None = no such cut."""
     exe = bin_path("pv-exec", profile)
     if os.path.exists(events_path):
         os.remove(events_path)
@@ -286,6 +289,8 @@ def exec_cases(cases_path, events_path, profile="dev", mem_kb=4 * 1024 * 1024, t
             f.write(json.dumps(ev) + "\n")
         aborted.append((case["id"], why))
         start = n + 1
+        if max_hangs is not None and sum(1 for _, w in aborted if w == "timeout") >= max_hangs:
+            break
     return aborted
 
 
